@@ -28,7 +28,8 @@ type BoundsSite struct {
 	Kind   string // IsInBounds | IsSliceInBounds
 	Fn     *ssa.Function
 	FnName string
-	Expr   string // normalised source expression (types.ExprString), line-free
+	Expr   string // normalised source expression (locals replaced by their types), line-free
+	Raw    string // the expression as written (for reading; not part of the key)
 	Node   ast.Node
 	Pos    token.Pos
 }
@@ -128,7 +129,8 @@ func (p *Prog) RunBCE(extraEnv ...string) ([]BoundsSite, error) {
 		s.Node = nodeAt(af, pos)
 		if s.Node != nil {
 			if e, ok := s.Node.(ast.Expr); ok {
-				s.Expr = types.ExprString(e)
+				s.Expr = normExpr(p.Fset, file, e, fileInfo[file])
+				s.Raw = types.ExprString(e)
 			} else {
 				s.Expr = fmt.Sprintf("%T", s.Node)
 			}
@@ -302,4 +304,57 @@ func (p *Prog) Reachable(roots []*ssa.Function) map[*ssa.Function]bool {
 		work = append(work, p.ModuleCallees(f, impls)...)
 	}
 	return seen
+}
+
+var srcCache = map[string][]byte{}
+
+// normExpr renders an expression with every local variable (parameters included) replaced by
+// its type, so that the key of a site survives the renaming of locals: `data[hdr:end]` and
+// `data[headerSize:limit]` both become `‹[]byte›[‹int›:‹int›]`. Fields, functions, constants
+// and package-level names are kept.
+func normExpr(fset *token.FileSet, file string, e ast.Expr, info *types.Info) string {
+	src, ok := srcCache[file]
+	if !ok {
+		src, _ = os.ReadFile(file)
+		srcCache[file] = src
+	}
+	tf := fset.File(e.Pos())
+	if tf == nil || src == nil || info == nil {
+		return types.ExprString(e)
+	}
+	start, end := tf.Offset(e.Pos()), tf.Offset(e.End())
+	if start < 0 || end > len(src) || start >= end {
+		return types.ExprString(e)
+	}
+	type rep struct {
+		a, b int
+		s    string
+	}
+	var reps []rep
+	qual := func(pk *types.Package) string { return pk.Name() }
+	ast.Inspect(e, func(n ast.Node) bool {
+		if fl, ok := n.(*ast.FuncLit); ok {
+			// a literal's body is not part of the site's identity
+			reps = append(reps, rep{tf.Offset(fl.Pos()) - start, tf.Offset(fl.End()) - start, "func‹literal›"})
+			return false
+		}
+		id, ok := n.(*ast.Ident)
+		if !ok {
+			return true
+		}
+		obj, _ := info.Uses[id].(*types.Var)
+		if obj == nil || obj.IsField() || obj.Pkg() == nil || obj.Parent() == obj.Pkg().Scope() {
+			return true
+		}
+		reps = append(reps, rep{tf.Offset(id.Pos()) - start, tf.Offset(id.End()) - start, "‹" + types.TypeString(obj.Type(), qual) + "›"})
+		return true
+	})
+	txt := string(src[start:end])
+	sort.Slice(reps, func(i, j int) bool { return reps[i].a > reps[j].a })
+	for _, r := range reps {
+		if r.a >= 0 && r.b <= len(txt) && r.a <= r.b {
+			txt = txt[:r.a] + r.s + txt[r.b:]
+		}
+	}
+	return strings.Join(strings.Fields(txt), " ")
 }
